@@ -15,6 +15,7 @@ derived from the exception itself (AttributeError: '<type of object>.<attribute>
 normalised message) and, for failures inside supp.project, from where the cursor is.
 """
 import collections
+import copy
 import gc
 import hashlib
 import json
@@ -52,6 +53,8 @@ class BudgetExceeded(BaseException):
 class Steps(object):
     TOOL = 4
     _installed = None
+    _snap = None
+    epoch = 0            # bumped after every injected abort: long-lived Project objects are dropped
 
     def __init__(self):
         import supp.assistant, supp.linter, supp.nast, supp.evaluator, supp.name, supp.scope  # noqa
@@ -92,6 +95,31 @@ class Steps(object):
                 add(o.__code__)
         return list(seen.values())
 
+    def snapshot(self):
+        """class- and module-level mutable state of supp (counters, caches): an abort injected at an arbitrary line can
+        leave it inconsistent (e.g. inside a finally block that restores it), so it is put back after every abort"""
+        snap = []
+        for name, mod in list(sys.modules.items()):
+            if name != 'supp' and not name.startswith('supp.'):
+                continue
+            holders = [mod] + [v for v in vars(mod).values() if isinstance(v, type) and getattr(v, '__module__', None) == name]
+            for h in holders:
+                for k, v in list(vars(h).items()):
+                    if k.startswith('__'):
+                        continue
+                    if type(v) in (bool, int, float, str, type(None)):
+                        snap.append((h, k, v, False))
+                    elif type(v) in (dict, list, set):
+                        snap.append((h, k, copy.copy(v), True))
+        return snap
+
+    def restore(self, snap):
+        for h, k, v, container in snap:
+            try:
+                setattr(h, k, copy.copy(v) if container else v)
+            except (AttributeError, TypeError):
+                pass
+
     def start(self, budget):
         self.state[0] = 0
         self.state[1] = budget
@@ -114,6 +142,7 @@ class Ctx(object):
         self.files = files          # {rel: text} when the tree was generated, else None
         self.workload = workload
         self._project = None
+        self._epoch = Steps.epoch
 
     @property
     def filename(self):
@@ -125,8 +154,9 @@ class Ctx(object):
         from supp.project import Project
         if fresh:
             return Project([self.root])
-        if self._project is None:
+        if self._project is None or self._epoch != Steps.epoch:
             self._project = Project([self.root])
+            self._epoch = Steps.epoch
         return self._project
 
     def describe(self):
@@ -327,6 +357,8 @@ class Mon(object):
         self.max_steps = {}          # entry -> [steps, budget, bytes]
         self.parse_cache = {}
         self.dead_texts = set()
+        if Steps._snap is None:
+            Steps._snap = self.steps.snapshot()
 
     # -- bookkeeping ----------------------------------------------------------------------
     def violate(self, mech, what, case):
@@ -359,7 +391,12 @@ class Mon(object):
             finally:
                 n = st.stop()
         except BudgetExceeded as e:
-            return ('budget', self.first_callee(e.__traceback__), n)
+            where = self.first_callee(e.__traceback__)
+            del e
+            self.steps.restore(Steps._snap)
+            Steps.epoch += 1
+            self.p.count('aborts_injected(supp class-level state restored, projects dropped)')
+            return ('budget', where, n)
         except KeyboardInterrupt:
             raise
         except BaseException as e:
@@ -592,7 +629,7 @@ def work_corpus(arg):
         if base is None:
             base = ctxs[root] = Ctx(root, None, workload='corpus')
         ctx = Ctx(root, path, workload='corpus')
-        ctx._project = base.project()           # one long-lived project per root and worker chunk
+        ctx.project = lambda fresh=False, base=base: base.project(fresh)   # one long-lived project per root and worker chunk
         L = ci.Lines(text)
         rel = os.path.relpath(path, root)
         rng = random.Random('%s:C08:corpus:%s' % (seed, rel))
@@ -605,7 +642,7 @@ def work_corpus(arg):
             m.both(ctx, text, pos, L, cls)
         part.case('file:' + rel, nontrivial=len(classes) >= 6)
         mctx = Ctx(root, path, workload='mutation')
-        mctx._project = base.project()
+        mctx.project = lambda fresh=False, base=base: base.project(fresh)
         for i, mu in enumerate(ci.mutations(text, random.Random('%s:C08:mut:%s' % (seed, rel)), nmut, L)):
             part.hist('mutation_kind', mu['kind'])
             mt = mu['text']
@@ -912,7 +949,7 @@ def main(run):
     files = corpus.select(run, 60)
     npos, nmut = run.pick(10, 60), run.pick(9, 18)
     jobs = [['work_corpus', {'seed': seed, 'files': b, 'npos': npos, 'nmut': nmut, 'lint_mut_max': run.pick(30000, 100000)}]
-            for b in _bins(files, run.pick(32, 96))]
+            for b in _bins(files, run.pick(32, 192))]
     H = ci.hostile_cases()
     def hcost(i):
         n = len(H[i]['text'])
